@@ -42,8 +42,6 @@ Proof.
   destruct (N.eqb_spec u v); [subst; lia | reflexivity].
 Qed.
 
-Lemma upd_same a v b : upd a v b v = b.
-Proof. unfold upd. rewrite N.eqb_refl. reflexivity. Qed.
 
 (* a function that ignores the top variable of a wf node has equal cofactor functions *)
 Lemma node_cofactors c v l h k a :
